@@ -241,6 +241,31 @@ pub struct Db {
     pub tainted: bool,
 }
 
+impl Db {
+    pub fn on_disk(&self) -> bool {
+        self.dir.is_some()
+    }
+}
+
+/// remove scratch directories left behind by harness processes that no longer exist
+fn sweep_stale_scratch() {
+    static ONCE: Once = Once::new();
+    ONCE.call_once(|| {
+        if let Ok(rd) = std::fs::read_dir("/verif/.cache/scratch") {
+            for e in rd.flatten() {
+                let name = e.file_name().to_string_lossy().to_string();
+                if let Some(rest) = name.strip_prefix("query-") {
+                    if let Some(pid) = rest.split('-').next().and_then(|p| p.parse::<u32>().ok()) {
+                        if pid != std::process::id() && !std::path::Path::new(&format!("/proc/{}", pid)).exists() {
+                            let _ = std::fs::remove_dir_all(e.path());
+                        }
+                    }
+                }
+            }
+        }
+    });
+}
+
 impl Drop for Db {
     fn drop(&mut self) {
         if let Some(d) = &self.dir {
@@ -318,6 +343,7 @@ pub enum BuildError {
 pub fn build(table: &Table, layout: &Layout) -> Result<Db, BuildError> {
     install_panic_hook();
     let _ = take_panics();
+    sweep_stale_scratch();
     let dir = if layout.disk {
         let d = std::path::PathBuf::from(format!(
             "/verif/.cache/scratch/query-{}-{}",
